@@ -182,6 +182,17 @@ impl Cfg {
 pub fn random_password(rng: &mut Rng) -> String {
     let n = *rng.pick(&[1usize, 3, 8, 8, 16, 24, 64, 200]);
     let alphabet: Vec<char> = "abcdefghijklmnopqrstuvwxyzABCDEFGHIJKLMNOPQRSTUVWXYZ0123456789-_!@#%^&*é世".chars().collect();
-    (0..n).map(|_| *rng.pick(&alphabet)).collect()
+    let mut p: String = (0..n).map(|_| *rng.pick(&alphabet)).collect();
+    // a password is the exact string between the quotes of the configuration file: white space at its ends or inside, quotes and
+    // backslashes belong to it (a reader that trims or unescapes once too often derives another key than every other implementation)
+    match rng.below(8) {
+        0 => p = format!(" {p}"),
+        1 => p = format!("{p} "),
+        2 => p = format!("\t{p}\n"),
+        3 => p = format!("{p}\u{3000}"),
+        4 => p = format!("a b\\\"c{p}"),
+        _ => {}
+    }
+    p
 }
 
